@@ -290,6 +290,22 @@ def sweep_nf(ctx, chk, rule, qual, fields, kernel_meth, domain_is_param):
         return None
     F = sx.loops[up[1]]
     mv = up[2]
+    # the node kernel may be called with further arguments that fill optional parameters (what the solver computed once per run
+    # instead of once per sweep - possibly remembered in a table that the sweep itself fills on first use): for the shape of the
+    # sweep all of these are "the kernel's result for this state"; what the kernel does with such an argument is judged with the
+    # kernel, in its call context (C02.2 / C14.1)
+    from . import kernels as _K
+    slist_t = shared.SLIST(ctx)
+    opt = {}
+    for km in ("value_iteration_reach", "value_iteration_rewards"):
+        ms = [m for m in (ctx.prog.resolve_method(c_, km) for c_ in _K.role_classes(ctx).values()) if m is not None]
+        opt[km] = bool(ms) and all(all(p in m.defaults for p in [q for q in m.params if q != "self"][1:]) for m in ms)
+
+    def _unify(t):
+        return subst(t, lambda x: ("mcall", x[1], x[2], (x[3][0],), ()) if x[0] == "mcall" and x[2] in opt and opt[x[2]] and x[3] and x[3][0] == slist_t and (len(x[3]) > 1 or x[4]) else None)
+    if any(x[0] == "mcall" and x[2] in opt and opt[x[2]] and (len(x[3]) > 1 or x[4]) for u_ in F.update.values() for x in _subterms(u_)):
+        F.update = {v_: deep_simp(_unify(u_)) for v_, u_ in F.update.items()}
+        F.effects = [tuple(deep_simp(_unify(x)) if isinstance(x, tuple) and x and isinstance(x[0], str) else x for x in e_) for e_ in F.effects]
     folds = classify(F)
     fo = folds.get(mv)
     fwhere = f.where(F.node)
